@@ -29,6 +29,7 @@ struct Ctx
     std::unique_ptr<elfio>              elf;
     std::unique_ptr<std::istringstream> ss;
     std::vector<address_translation>    trans;
+    std::string                         saved; // bytes of the last save
 };
 
 static void run_case( const std::vector<Toks>& ops, FILE* out )
@@ -149,6 +150,128 @@ static void run_case( const std::vector<Toks>& ops, FILE* out )
             string_section_accessor a( s );
             const char*             p = a.get_string( (Elf_Word)num( t[2] ) );
             fprintf( out, "str=%s\n", p ? hex( std::string( p ) ).c_str() : "null" );
+        }
+        else if ( op == "create" ) {
+            unsigned char cls = kvn( t, "cls", 64 ) == 32 ? ELFCLASS32 : ELFCLASS64;
+            std::string   e;
+            unsigned char enc = ( kv( t, "enc", e ) && e == "msb" ) ? ELFDATA2MSB : ELFDATA2LSB;
+            c.elf->create( cls, enc );
+            fprintf( out, "ok\n" );
+        }
+        else if ( op == "hset" && t.size() == 3 ) {
+            unsigned long long v = num( t[2] );
+            if ( t[1] == "os_abi" ) c.elf->set_os_abi( (unsigned char)v );
+            else if ( t[1] == "abi_version" ) c.elf->set_abi_version( (unsigned char)v );
+            else if ( t[1] == "type" ) c.elf->set_type( (Elf_Half)v );
+            else if ( t[1] == "machine" ) c.elf->set_machine( (Elf_Half)v );
+            else if ( t[1] == "flags" ) c.elf->set_flags( (Elf_Word)v );
+            else if ( t[1] == "entry" ) c.elf->set_entry( v );
+            fprintf( out, "ok\n" );
+        }
+        else if ( op == "addsec" ) {
+            std::string nm, d;
+            kv( t, "name", nm );
+            section* s = c.elf->sections.add( unhex( nm ) );
+            s->set_type( (Elf_Word)kvn( t, "type", 1 ) );
+            s->set_flags( kvn( t, "flags", 0 ) );
+            s->set_addr_align( kvn( t, "align", 0 ) );
+            s->set_entry_size( kvn( t, "entsize", 0 ) );
+            s->set_link( (Elf_Word)kvn( t, "link", 0 ) );
+            s->set_info( (Elf_Word)kvn( t, "info", 0 ) );
+            if ( kv( t, "addr", d ) )
+                s->set_address( num( d ) );
+            if ( kv( t, "data", d ) ) {
+                std::string b = unhex( d );
+                s->set_data( b.data(), b.size() );
+            }
+            if ( kv( t, "size", d ) )
+                s->set_size( num( d ) );
+            fprintf( out, "idx=%u\n", s->get_index() );
+        }
+        else if ( op == "secset" && t.size() == 4 ) {
+            section* s = c.elf->sections[(unsigned)num( t[1] )];
+            if ( !s ) {
+                fprintf( out, "null\n" );
+                continue;
+            }
+            unsigned long long v = num( t[3] );
+            if ( t[2] == "type" ) s->set_type( (Elf_Word)v );
+            else if ( t[2] == "flags" ) s->set_flags( v );
+            else if ( t[2] == "info" ) s->set_info( (Elf_Word)v );
+            else if ( t[2] == "link" ) s->set_link( (Elf_Word)v );
+            else if ( t[2] == "align" ) s->set_addr_align( v );
+            else if ( t[2] == "entsize" ) s->set_entry_size( v );
+            else if ( t[2] == "addr" ) s->set_address( v );
+            else if ( t[2] == "size" ) s->set_size( v );
+            else if ( t[2] == "nameoff" ) s->set_name_string_offset( (Elf_Word)v );
+            fprintf( out, "ok\n" );
+        }
+        else if ( op == "secedit" && t.size() >= 4 ) {
+            section* s = c.elf->sections[(unsigned)num( t[1] )];
+            if ( !s ) {
+                fprintf( out, "null\n" );
+                continue;
+            }
+            if ( t[2] == "set" ) {
+                std::string b = unhex( t[3] );
+                s->set_data( b.data(), b.size() );
+            }
+            else if ( t[2] == "app" ) {
+                std::string b = unhex( t[3] );
+                s->append_data( b.data(), b.size() );
+            }
+            else if ( t[2] == "ins" && t.size() == 5 ) {
+                std::string b = unhex( t[4] );
+                s->insert_data( num( t[3] ), b.data(), b.size() );
+            }
+            fprintf( out, "ok\n" );
+        }
+        else if ( op == "addseg" ) {
+            segment*    g = c.elf->segments.add();
+            std::string d;
+            g->set_type( (Elf_Word)kvn( t, "type", 1 ) );
+            g->set_flags( (Elf_Word)kvn( t, "flags", 0 ) );
+            g->set_align( kvn( t, "align", 0 ) );
+            g->set_virtual_address( kvn( t, "vaddr", 0 ) );
+            g->set_physical_address( kvn( t, "paddr", 0 ) );
+            if ( kv( t, "memsz", d ) )
+                g->set_memory_size( num( d ) );
+            if ( kv( t, "filesz", d ) )
+                g->set_file_size( num( d ) );
+            fprintf( out, "idx=%u\n", g->get_index() );
+        }
+        else if ( op == "segadd" && t.size() >= 3 ) {
+            unsigned j = (unsigned)num( t[1] ), i = (unsigned)num( t[2] );
+            if ( j >= c.elf->segments.size() ) {
+                fprintf( out, "null\n" );
+                continue;
+            }
+            section*  s  = c.elf->sections[i];
+            Elf_Xword al = t.size() > 3 ? num( t[3] ) : ( s ? s->get_addr_align() : 0 );
+            Elf_Half  n  = c.elf->segments[j]->add_section_index( (Elf_Half)i, al );
+            fprintf( out, "n=%u\n", n );
+        }
+        else if ( op == "save" ) {
+            long long  budget = (long long)kvn( t, "budget", (unsigned long long)-1 );
+            std::string d;
+            bool        r;
+            if ( kv( t, "budget", d ) ) {
+                budget_buf   bb( budget );
+                std::ostream os( &bb );
+                r       = c.elf->save( os );
+                c.saved = bb.content;
+            }
+            else {
+                std::ostringstream os;
+                r       = c.elf->save( os );
+                c.saved = os.str();
+            }
+            fprintf( out, "save=%s bytes=%s\n", r ? "true" : "false", hex( c.saved ).c_str() );
+        }
+        else if ( op == "reload" ) {
+            c.ss   = std::make_unique<std::istringstream>( c.saved );
+            bool r = c.elf->load( *c.ss, kvn( t, "lazy", 0 ) == 1 );
+            fprintf( out, "load=%s\n", r ? "true" : "false" );
         }
         else if ( op == "validate" ) {
             std::string        e = c.elf->validate();
